@@ -13,6 +13,8 @@ NOTES = ("Runtime monitoring only (DESIGN.md). ./check <Cxx> --tier quick|thorou
 ENGINES = [
     {"name": "sched-cell", "path": "vf/sched", "serves_properties": ["C01", "C02", "C03", "C04", "C05", "C06", "C07", "C08"],
      "kind_free_text": "generated event histories executed on the real scheduler.Cell under a virtual clock; reference-model oracles after every cycle; forked probe cycles"},
+    {"name": "master-zk", "path": "vf/master", "serves_properties": ["C01", "C03", "C04", "C05", "C06", "C07", "C08", "C09", "C10", "C11"],
+     "kind_free_text": "real Master/Loader on ZkBackend on an in-memory ZooKeeper (vf/zkfake.py); events produced with masterapi; fork-based crash cuts and restarts"},
 ]
 _SCHED_NOTE = ("Trusted base: the harness model of what it asked for (vf/sched/celldrv.py), the virtual clock, the observe-only wrappers; "
                "the Cell is driven with the call sequences scheduler.loader uses. Decides only the executions produced; evidence lists reach counters.")
@@ -40,4 +42,16 @@ CHECKS = {
     'C08': _s("Retention windows, frozen servers and blacklisting are decided on virtual time from the harness' own log of state transitions, with clock steps landing around each deadline.",
               "runtime monitoring: virtual-clock oracle over before/after tuples vs harness fault log", "DESIGN 2 C08"),
 }
+_M_NOTE = ("Trusted base: the in-memory ZooKeeper fake (vf/zkfake.py, conformance unit in setup_cmd) under the real ZkBackend/zkutils/masterapi; "
+           "the driver replaces the four children watches by calling the registered handler for each watched path whose children changed; virtual clock; "
+           "fork() gives each crash/restart world a private copy of the stored state.")
+CHECKS['C09'] = dict(engine='master-zk', category='exploration', design_ref='DESIGN 3 C09', note=_M_NOTE,
+                     text="After init_schedule() and every reschedule()+check_placement_integrity() of generated ZooKeeper-level histories (with master restarts) the full /placement tree is compared with Master.cell: existence, server, identity, expires.",
+                     technique="runtime monitoring: full backend dump vs model after every cycle of generated event histories")
+CHECKS['C10'] = dict(engine='master-zk', category='fault_enumeration', design_ref='DESIGN 3 C10', note=_M_NOTE,
+                     text="Every mutating ZooKeeper call of every init_schedule()/reschedule() of every generated history is a crash point (fork before it, plus one after the last): no double entry at the cut; a new master starts, republishes a placement equal to its model and passes its own integrity check.",
+                     technique="runtime monitoring with fault injection: fork at every storage write, restart oracle in the child")
+CHECKS['C11'] = dict(engine='master-zk', category='exploration', design_ref='DESIGN 3 C11', note=_M_NOTE,
+                     text="After every completed cycle a forked child rebuilds the model with load_model() and it is compared with a reference computed from the stored state alone (healthy servers: presence ctime <= entry ctime, recorded instances fit).",
+                     technique="runtime monitoring: forked restart after every cycle vs reference computed from the stored state")
 NOT_APPLICABLE = {}
